@@ -19,7 +19,7 @@ pub fn prop() -> Prop {
     Prop {
         id: "C34", title: "Timer interrupts follow the configured interval", level: "exploration",
         rule: "Phase 0: TimerDevices with exact counts n in 1..=1000 and ranges a..=b / a..b / (Excluded(a-1), Included(b)) / a.. (1 <= a; for a.. only the minimum is checked), random seeds, vectors and priorities are polled directly 2000-10000 times with random enable/disable toggles, io_reset and reset_remaining calls. Monitor over the poll history: \
-               (i) the number of polls strictly between two consecutive interrupts (with no toggle/reset in between) lies in the range (= n for an exact count); (ii) after enabling, io_reset or reset_remaining the first interrupt comes within max+1 enabled polls; \
+               (i) the number of enabled polls strictly between two consecutive interrupts (with no reset in between; a disabled timer is frozen, so polls made while it is disabled do not count) lies in the range (= n for an exact count); (ii) after enabling, io_reset or reset_remaining the first interrupt comes within max+1 enabled polls; \
                (iii) no interrupt while disabled; (iv) two timers with the same seed and operation sequence produce identical fire sequences, vector and priority as configured (priority clamped to 7). \
                Phase 1: the same timer wrapped in a recording device inside a Simulator running an endless loop, with (in half of the cases) an earlier-registered device that raises external interrupts: the timer must be polled exactly once per step (also on steps aborted by an external interrupt), and the recorded poll/fire log must satisfy (i) and (ii); interrupt entries are counted from the machine state. \
                Phase 2: the timer shared through Arc<Mutex<_>> or Arc<RwLock<_>> (the library's ExternalDevice impls for both), enabled by a controller thread that in half of the cases dies holding the guard (lock poisoned but free): polled directly or inside a Simulator, it must fire and satisfy (i) and (ii). \
@@ -57,7 +57,7 @@ fn run(ctx: &mut Ctx) {
         for i in 0..polls {
             // occasional operations
             match rng.below(if enabled { 400 } else { 6 }) {
-                0 => { enabled = !enabled; t.enabled = enabled; u.enabled = enabled; since_fire = None; since_arm = if enabled { Some(0) } else { None }; hist.push(format!("poll {i}: enabled = {enabled}")); }
+                0 => { enabled = !enabled; t.enabled = enabled; u.enabled = enabled; /* the countdown is frozen while disabled: only enabled polls count, across the pause */ since_arm = if enabled { Some(0) } else { None }; if !enabled && since_fire == Some(0) { ctx.count("pauses.right-after-an-interrupt"); } hist.push(format!("poll {i}: enabled = {enabled}")); }
                 1 if enabled => { if rng.bool() { t.io_reset(); u.io_reset(); hist.push(format!("poll {i}: io_reset")); } else { t.reset_remaining(); u.reset_remaining(); hist.push(format!("poll {i}: reset_remaining")); } since_fire = None; since_arm = Some(0); }
                 _ => {}
             }
@@ -169,7 +169,7 @@ fn shared(ctx: &mut Ctx) {
 
 fn guard(m: &Merged, _t: Tier) -> Vec<String> {
     let mut out = vec![];
-    for k in ["timers.exact", "timers.inclusive-range", "timers.exclusive-range", "timers.excluded-start-bound", "timers.no-upper-bound", "timers.seed-0-with-a-range", "shared.mutex.healthy", "shared.mutex.poisoned", "shared.rwlock.healthy", "shared.rwlock.poisoned", "shared.inside-simulator", "gaps.at-min", "gaps.at-max", "gaps.inside", "first-fire-after-arm", "sim.timers", "sim.gaps-in-range", "sim.timers-with-external-interrupt-source"] { need(m, &mut out, k, 20); }
+    for k in ["timers.exact", "timers.inclusive-range", "timers.exclusive-range", "timers.excluded-start-bound", "timers.no-upper-bound", "pauses.right-after-an-interrupt", "timers.seed-0-with-a-range", "shared.mutex.healthy", "shared.mutex.poisoned", "shared.rwlock.healthy", "shared.rwlock.poisoned", "shared.inside-simulator", "gaps.at-min", "gaps.at-max", "gaps.inside", "first-fire-after-arm", "sim.timers", "sim.gaps-in-range", "sim.timers-with-external-interrupt-source"] { need(m, &mut out, k, 20); }
     need(m, &mut out, "fires", 10_000);
     out
 }
